@@ -15,6 +15,13 @@
 //        distinct keys), def: the entry point's *default* cswap / comparator (operator< = key<).
 //        Answer: `key:tag,...` after the call.  Direct oracle: the answer is in non-decreasing
 //        order and is a permutation of the input *elements* (every tag once, with its own key).
+//        Comparator *carriers* (pointer runs only): `fn-<o>` / `fnt-<o>` pass the order inside a
+//        std::function (lvalue / temporary); `own-<o>` / `ownt-<o>` inside `OwnCmp`, an object that
+//        owns a heap rank table and whose move constructor / assignment empties the source and
+//        marks it moved-from (copies are fine); `ownd` = a default-constructed OwnCmp through the
+//        entry point's default argument.  <o> = lt|gt|q4|rk, rk = order by the rank table (a
+//        permutation of key mod 32).  A moved-from OwnCmp that is called is flagged and silently
+//        falls back to key< ; a thrown exception (std::bad_function_call) is a violation.
 //   runi <ptr|rev|deque|stride> <variant> <family> <direct|dispatch> <n> <ord> <keys>
 //        the same through another random-access iterator kind (c15_entry.hpp `Seq`):
 //        rev = std::reverse_iterator over a slice in the middle of a larger buffer, deque =
@@ -31,6 +38,7 @@
 #include "common.hpp"
 
 #include <algorithm>
+#include <functional>
 
 static const long long POISON = -999999937LL;
 
@@ -60,8 +68,50 @@ struct Cmp {
     }
 };
 
-static bool less_by(const std::string& ord, const Elem& a, const Elem& b) {
-    Cmp c = {ord == "gt" ? 'g' : ord == "q4" ? 'q' : 'l'};
+// rank table order: a fixed permutation of key mod 32
+static int rank_of(long long key) { return int(((((key % 32) + 32) % 32) * 13 + 5) % 32); }
+
+static unsigned long g_moved_from_calls = 0;
+
+// comparator owning heap memory, with observable move semantics (LESSONS 1, 8): the moved-from object has an
+// empty table and is marked; calling it is flagged and silently orders by plain key<
+struct OwnCmp {
+    std::vector<int> rank;   // rank[k mod 32]
+    char mode;               // 'l' 'g' 'q' as Cmp, 'r' by rank table
+    bool moved;
+    explicit OwnCmp(char m = 'r') : rank(32), mode(m), moved(false) { for (int k = 0; k < 32; ++k) rank[size_t(k)] = rank_of(k); }
+    OwnCmp(const OwnCmp&) = default;
+    OwnCmp& operator=(const OwnCmp&) = default;
+    OwnCmp(OwnCmp&& o) noexcept : rank(std::move(o.rank)), mode(o.mode), moved(o.moved) { o.rank.clear(); o.moved = true; }
+    OwnCmp& operator=(OwnCmp&& o) noexcept {
+        if (this != &o) { rank = std::move(o.rank); mode = o.mode; moved = o.moved; o.rank.clear(); o.moved = true; }
+        return *this;
+    }
+    bool operator()(const Elem& a, const Elem& b) const {
+        if (moved || rank.size() != 32) { ++g_moved_from_calls; return a.key < b.key; }
+        if (mode == 'r') return rank[size_t(((a.key % 32) + 32) % 32)] < rank[size_t(((b.key % 32) + 32) % 32)];
+        Cmp c = {mode};
+        return c(a, b);
+    }
+};
+
+typedef std::function<bool(const Elem&, const Elem&)> FnCmp;
+
+// "fn-lt" -> carrier "fn", base "lt"; "ownd" -> carrier "ownd", base "rk"; "lt" -> carrier "", base "lt"
+static bool split_ord(const std::string& ord, std::string& carrier, std::string& base) {
+    size_t d = ord.find('-');
+    if (ord == "ownd") { carrier = "ownd"; base = "rk"; return true; }
+    if (d == std::string::npos) { carrier = ""; base = ord; return base == "lt" || base == "gt" || base == "q4" || base == "def"; }
+    carrier = ord.substr(0, d);
+    base = ord.substr(d + 1);
+    if (!(carrier == "fn" || carrier == "fnt" || carrier == "own" || carrier == "ownt")) return false;
+    if (base == "rk") return carrier == "own" || carrier == "ownt";
+    return base == "lt" || base == "gt" || base == "q4";
+}
+
+static bool less_by(const std::string& base, const Elem& a, const Elem& b) {
+    if (base == "rk") return rank_of(a.key) < rank_of(b.key);
+    Cmp c = {base == "gt" ? 'g' : base == "q4" ? 'q' : 'l'};
     return c(a, b);
 }
 
@@ -77,6 +127,27 @@ struct Caller {
 #ifndef C15_NO_DEFAULT
         if (*ord == "def") return entry == 0 ? c15::call_direct_default(fam, n, a) : c15::call_dispatch_default(fam, n, a);
 #endif
+        return carriers(a, std::is_pointer<It>());
+    }
+    template <typename It>
+    bool carriers(It, std::false_type) const { return false; }   // comparator carriers: pointer runs only
+    template <typename It>
+    bool carriers(It a, std::true_type) const {
+        std::string carrier, base;
+        if (!split_ord(*ord, carrier, base)) return false;
+        char mode = base == "gt" ? 'g' : base == "q4" ? 'q' : base == "rk" ? 'r' : 'l';
+        if (carrier == "fn" || carrier == "fnt") {
+            Cmp c = {mode};
+            FnCmp f = c;
+            return carrier == "fn" ? c15::call(fam, entry, n, a, f) : c15::call<true>(fam, entry, n, a, f);
+        }
+        if (carrier == "own" || carrier == "ownt") {
+            OwnCmp c(mode);
+            return carrier == "own" ? c15::call(fam, entry, n, a, c) : c15::call<true>(fam, entry, n, a, c);
+        }
+#ifndef C15_NO_DEFAULT
+        if (carrier == "ownd") return c15::call_default_as<OwnCmp>(fam, entry, n, a);
+#endif
         return false;
     }
 };
@@ -91,12 +162,18 @@ static std::string show(const std::vector<Elem>& v) {
 static int entry_of(const std::string& s) { return s == "direct" ? 0 : (s == "dispatch" ? 1 : -1); }
 
 // run the real code on `keys` laid out in `seq`; out = the sequence afterwards
+static std::string g_exception;   // what() of an exception that escaped the last run
+
 static bool run_in(c15::Seq<Elem>& seq, int fam, int entry, const std::string& ord,
                    const std::vector<long long>& keys, std::vector<Elem>& out, bool& guards_ok) {
     int n = seq.n;
     for (int i = 0; i < n; ++i) seq.at(i) = Elem(keys[size_t(i)], i);
     Caller call = {fam, entry, n, &ord};
-    bool ok = seq.apply(call);
+    bool ok = false;
+    g_exception.clear();
+    g_moved_from_calls = 0;
+    try { ok = seq.apply(call); }
+    catch (const std::exception& e) { g_exception = std::string("exception ") + e.what(); ok = true; }
     out.resize(size_t(n));
     for (int i = 0; i < n; ++i) out[size_t(i)] = seq.at(i);
     guards_ok = seq.guards_ok();
@@ -177,11 +254,12 @@ int main(int argc, char** argv) {
             int n = std::atoi(t[3 + o].c_str());
             const std::string& ord = t[4 + o];
             std::vector<long long> keys = vh::csv(t[5 + o]);
+            std::string carrier, base;
             if (kind < 0 || variant < 0 || fam < 0 || entry < 0 || !c15::exists(fam, entry, n) || int(keys.size()) != n ||
 #ifdef C15_NO_DEFAULT
-                ord == "def" ||   // the default-cswap calls do not compile against this tree (see checks/c15.py)
+                ord == "def" || ord == "ownd" ||   // the default forms do not compile against this tree (see checks/c15.py)
 #endif
-                !(ord == "lt" || ord == "gt" || ord == "q4" || ord == "def")) {
+                !split_ord(ord, carrier, base) || (!carrier.empty() && kind != c15::K_PTR)) {
                 vh::answer("bad-op");
                 continue;
             }
@@ -190,7 +268,12 @@ int main(int argc, char** argv) {
             run_seq(kind, variant, fam, entry, n, ord, keys, v, guards);
             vh::answer(show(v));
             std::string what = std::string(c15::kind_name[kind]) + " " + t[1 + o] + " " + t[2 + o] + " n=" + t[3 + o] + " ord=" + ord;
-            std::string eff = ord == "def" ? "lt" : ord;
+            std::string eff = base == "def" ? "lt" : base;
+            if (!g_exception.empty())
+                vh::viol("exception " + what + " input=" + t[5 + o] + " : " + g_exception + " escaped the sort");
+            if (g_moved_from_calls)
+                vh::viol("moved-from-comparator-called " + what + " input=" + t[5 + o] + " (" + std::to_string(g_moved_from_calls) +
+                         " calls of a comparator object after it was moved from)");
             for (int i = 1; i < n; ++i)
                 if (less_by(eff, v[size_t(i)], v[size_t(i - 1)])) {
                     vh::viol("not-sorted " + what + " pos=" + std::to_string(i) + " input=" + t[5 + o] + " output=" + show(v));
